@@ -938,8 +938,13 @@ func findingFor(diag []string, w *world) string {
 	fid := ""
 	for _, d := range diag {
 		switch {
-		case strings.HasPrefix(d, "weight-out-of-range: 42949") && len(d) > 30 && feats.Contains("endpoint-weight"):
-			// a sum just above uint32: 4294967295 + a few small weights
+		case strings.HasPrefix(d, "weight-out-of-range: ") && feats.Contains("vs-odd-weight"):
+			// admission-bypassing VirtualService weights (0, negative, huge): total 0 or wrapped above uint32
+			if fid == "" {
+				fid = "C14-unvalidated-route-weights"
+			}
+		case overflowsU32(d) && feats.Contains("endpoint-weight"):
+			// a locality's endpoint weights (one of them 4294967295) sum above uint32
 			if fid == "" {
 				fid = "C14-endpoint-weight-sum-overflow"
 			}
@@ -955,4 +960,12 @@ func findingFor(diag []string, w *world) string {
 		}
 	}
 	return fid
+}
+
+func overflowsU32(d string) bool {
+	var v uint64
+	if _, err := fmt.Sscanf(d, "weight-out-of-range: %d not in", &v); err != nil {
+		return false
+	}
+	return v > 4294967295
 }
